@@ -392,6 +392,20 @@ def run(ctx):
     regs = [g for g in registrations(cas, prog) if g["cb"] is not None and prog.resolve_callable(cas, g["cb"]) is ok_s]
     r.check(bool(regs) and all(g["kind"] in ("cb", "cbs") for g in regs), "%s#success-after-commit" % cas.qname,
             "the shutdown success step is not the on-success continuation of commit()", where(cas, cas.node))
+    fail_h = shutdown.nested.get("_handle_shutdown_commit_failure")
+    okp = False
+    if fail_h is not None:
+        chf = ctx.cfg(fail_h)
+        fhf = ctx.facts(fail_h)
+        p = fail_h.first_param()
+        for n in chf.nodes:
+            for c in n.calls():
+                if call_name(c) in ("addCallback", "addBoth") and ("%s.check(OperationInProgress)" % p, True) in fhf[n.id] and c.args:
+                    okp = prog.resolve_callable(fail_h, c.args[0]) is cas and "%s.value.deferred" % p in (call_recv(c) or "")
+    r.check(okp, "%s#in-progress-then-commit-again" % shutdown.qname,
+            "when another commit is in flight at shutdown, its completion does not lead to a fresh commit of the final offset",
+            where(shutdown, fail_h.node if fail_h else shutdown.node),
+            "blocks processed after the in-flight commit was sent are never committed: on success last committed != last processed")
     cok = ctx.cfg(ok_s)
     stops = [n.id for n in cok.nodes if any(call_name(c) == "stop" and call_recv(c) == "self" for c in n.calls())]
     fire = [n for n in cok.nodes if any(call_name(c) == "callback" for c in n.calls())]
@@ -410,6 +424,28 @@ def run(ctx):
     loops = [x for x in walk_body_shallow(pm.body) if isinstance(x, ast.While)]
     r.check(bool(loops) and "not self._shuttingdown" in norm(loops[0].test), "%s#loop-gated" % pm.qname,
             "the feeder loop does not stop handing out blocks once shutdown was requested", where(pm, pm.node))
+
+    # ---- R7 fired timer handles are cleared (stop() cancels them unguarded)
+    r = ctx.rule("R7", "a delayed-call handle that stop() cancels without `.active()` is cleared by the function its timer calls", 2, "C")
+    for a, k in sorted(active.items()):
+        if k != "delayedcall":
+            continue
+        guarded = all(any(pol and t == "self.%s.active()" % a for t, pol in fst[n.id]) for n, c in sc.get(a, []))
+        cbs = set()
+        for f in [x for x in prog.funcs.values() if x.cls is ci]:
+            for x in walk_body_shallow(f.body):
+                if isinstance(x, ast.Assign) and any(self_attr(t) == a for t in x.targets) and isinstance(x.value, ast.Call) and \
+                        call_name(x.value) == "callLater" and len(x.value.args) > 1:
+                    g = prog.resolve_callable(f, x.value.args[1])
+                    if g is not None:
+                        cbs.add(g)
+        clears = [g for g in cbs if any(isinstance(x, ast.Assign) and any(self_attr(t) == a for t in x.targets) and isinstance(
+            x.value, ast.Constant) and x.value.value is None for x in walk_body_shallow(g.body))]
+        r.check(guarded or (bool(cbs) and len(clears) == len(cbs)), "%s#fired-handle-cleared(%s)" % (CONS, a),
+                "self.%s keeps pointing at a delayed call that has already fired (its callback %s never clears it) and stop() cancels it "
+                "without checking .active()" % (a, sorted(g.name for g in cbs)), where(stop, stop.node),
+                "after a commit/fetch retry timer has fired, stop() raises AlreadyCalled half-way: looper left running, start Deferred unfired",
+                facts=["callbacks=%s" % sorted(g.name for g in cbs)])
 
     # ---- R6 restartable (flags)
     r = ctx.rule("R6", "stop() resets _stopping and clears the start Deferred on every normal path", 1, "A")
@@ -458,6 +494,12 @@ MUTANTS = [
      "old": "            self._shutdown_d, d = None, self._shutdown_d\n            self.stop()\n            self._shuttingdown = False  # Shutdown complete\n            d.callback(self._last_processed_offset)",
      "new": "            self._shutdown_d, d = None, self._shutdown_d\n            d.callback(self._last_processed_offset)\n            self.stop()\n            self._shuttingdown = False  # Shutdown complete",
      "expect": "C13.R5"},
+    {"id": "shutdown-in-progress-skips-final-commit", "file": "consumer.py",
+     "old": "                failure.value.deferred.addCallback(_commit_and_stop)", "new": "                failure.value.deferred.addCallback(_handle_shutdown_commit_success)",
+     "expect": "C13.R5", "note": "seeded C13-1"},
+    {"id": "fired-commit-timer-not-cleared", "file": "consumer.py",
+     "old": "        if self._commit_call and not self._commit_call.active():\n            self._commit_call = None\n", "new": "", "expect": "C13.R7",
+     "note": "seeded C13-2"},
     {"id": "stopping-not-reset", "file": "consumer.py", "old": "        # Done stopping\n        self._stopping = False\n", "new": "",
      "expect": "C13.R6"},
 ]
